@@ -15,11 +15,13 @@ import (
 )
 
 var checks = map[string]func(*Ctx){
+	"C19": checkC19,
 	"C20": checkC20,
 	"C06": checkC06,
 	"C09": checkC09,
 	"C11": checkC11,
 	"C16": checkC16,
+	"C17": checkC17,
 	"C18": checkC18,
 }
 
